@@ -160,7 +160,7 @@ pub fn run_sim_warm<R: Send>(env: &Env, warm: impl Fn() + Sync + Send, f: impl F
     let results = std::thread::scope(|s| {
         std::thread::Builder::new()
             .name("sim-caller".into())
-            .stack_size(256 << 20)
+            .stack_size(64 << 20)
             .spawn_scoped(s, || {
                 seams::set_thread_id(1);
                 panic::catch_unwind(AssertUnwindSafe(|| match ctx {
